@@ -123,7 +123,7 @@ def vid(v) -> int:
     return int(v.name[1:])
 
 
-def build_y0(g, V, warm=None, every=4):
+def build_y0(g, V, warm=None, every=4, loose=False):
     """The y0 graph of a case. One graph in [every] (chosen by the case itself, so reproducibly) is built the way an analyst edits a graph:
     part of the nodes and edges, some queries (which a careless cache would remember; [warm] is the calling property's own entry point), then the rest
     through the public add_* methods.
@@ -167,6 +167,22 @@ def build_y0(g, V, warm=None, every=4):
             query()
         except Exception:  # noqa: BLE001  -- a warm-up query may not apply to this graph (cycles, ...)
             pass
+    if loose and (zlib.crc32(repr((g["bid"], g["nodes"], g["dir"])).encode()) >> 4) % 2:
+        # [loose]: the caller compares node SETS only. The later nodes are then not announced with add_node: the edges bring them in
+        # (directed edges first - a cache that is cleared by add_node / add_undirected_edge only would survive), isolated ones at the end
+        for a, b in directed[kd:]:
+            gr.add_directed_edge(a, b)
+        for query in queries[:8]:
+            try:
+                query()
+            except Exception:  # noqa: BLE001
+                pass
+        for a, b in undirected[ku:]:
+            gr.add_undirected_edge(a, b)
+        for v in nodes[kn:]:
+            if v not in set(gr.nodes()):
+                gr.add_node(v)
+        return gr
     for v in nodes[kn:]:
         gr.add_node(v)
     for a, b in directed[kd:]:
@@ -176,8 +192,31 @@ def build_y0(g, V, warm=None, every=4):
     return gr
 
 
-def to_y0(g, warm=None):
-    return build_y0(g, V, warm)
+def to_y0(g, warm=None, loose=False):
+    return build_y0(g, V, warm, loose=loose)
+
+
+def present(items, salt):
+    """The same collection handed over the way different callers would: the parameters typed Iterable accept lists, tuples, sets, dict views and
+    ONE-SHOT iterators alike (a function that walks its argument twice sees nothing the second time). The form is chosen by the case itself."""
+    import zlib
+    items = list(items)
+    k = zlib.crc32(repr((salt, [str(x) for x in items])).encode()) % 8
+    if k == 0:
+        return list(items)
+    if k == 1:
+        return tuple(items)
+    if k == 2:
+        return set(items)
+    if k == 3:
+        return frozenset(items)
+    if k == 4:
+        return iter(items)
+    if k == 5:
+        return (x for x in items)
+    if k == 6:
+        return dict.fromkeys(items).keys()
+    return map(lambda x: x, items)
 
 
 def from_y0(gr) -> dict:
